@@ -1213,7 +1213,9 @@ class RTCSctpTransport(AsyncIOEventEmitter):
             done += 1
             if not schunk._acked:
                 done_bytes += schunk._book_size
-                self._flight_size_decrease(schunk)
+                # a chunk marked for retransmission is not in flight
+                if not schunk._retransmit:
+                    self._flight_size_decrease(schunk)
 
             # update RTO estimate
             if done == 1 and schunk._sent_count == 1:
@@ -1244,7 +1246,11 @@ class RTCSctpTransport(AsyncIOEventEmitter):
                 if schunk.tsn in seen and not schunk._acked:
                     done_bytes += schunk._book_size
                     schunk._acked = True
-                    self._flight_size_decrease(schunk)
+                    if schunk._retransmit:
+                        # not in flight, and no longer in need of retransmission
+                        schunk._retransmit = False
+                    else:
+                        self._flight_size_decrease(schunk)
                     highest_newly_acked = schunk.tsn
 
             # strike missing chunks prior to HTNA
@@ -1255,11 +1261,13 @@ class RTCSctpTransport(AsyncIOEventEmitter):
                     schunk._misses += 1
                     if schunk._misses == 3:
                         schunk._misses = 0
+                        in_flight = not schunk._acked and not schunk._retransmit
                         if not self._maybe_abandon(schunk):
                             schunk._retransmit = True
 
                         schunk._acked = False
-                        self._flight_size_decrease(schunk)
+                        if in_flight:
+                            self._flight_size_decrease(schunk)
 
                         loss = True
 
@@ -1551,6 +1559,8 @@ class RTCSctpTransport(AsyncIOEventEmitter):
         for chunk in self._sent_queue:
             if not self._maybe_abandon(chunk):
                 chunk._retransmit = True
+                # forget gap acknowledgements, the flight size restarts from zero
+                chunk._acked = False
         self._update_advanced_peer_ack_point()
 
         # adjust congestion window
